@@ -218,8 +218,28 @@ fn run_in(case: &C02Case, exec: &mut Exec) -> Result<CaseInfo, Fail> {
         max_wait_ms: 0,
         log_events: true,
     };
-    let res = must("scenario", exec.scenario(&sspec))?;
-    evaluate(case, &sspec, &res, total)
+    let mut res = must("scenario", exec.scenario(&sspec))?;
+    // "never received" is only conclusive once the follower has had ample time: the scenario
+    // returns after a short quiet period, which a loaded machine can produce on its own; keep
+    // looking at the (still running) followers before reporting a missing delivery
+    let deadline = Instant::now() + std::time::Duration::from_secs(10);
+    let mut verdict = evaluate(case, &sspec, &res, total);
+    while let Err(f) = &verdict {
+        if f.class != Class::Follow || Instant::now() > deadline {
+            break;
+        }
+        std::thread::sleep(std::time::Duration::from_millis(5));
+        let again = must(
+            "scenario-peek",
+            exec.call(&crate::exec::Cmd::ScenarioPeek)
+                .map(|v| serde_json::from_value::<Vec<FollowResult>>(v).unwrap_or_default()),
+        )?;
+        if again.len() == res.followers.len() {
+            res.followers = again;
+        }
+        verdict = evaluate(case, &sspec, &res, total);
+    }
+    verdict
 }
 
 pub fn in_scope(w: &WFrame, ctx: Option<u128>) -> bool {
